@@ -76,6 +76,96 @@ impl<'ast> UnifTable<'ast> {
         UnifTable::default()
     }
 
+    /// Occurs check: does the unification variable `var` (of the given kind) occur in `uty`,
+    /// looking through the variables that are already assigned?
+    ///
+    /// Assigning to a variable a type that contains this very variable creates a cyclic (infinite)
+    /// type such as `a = a -> b`. No traversal of unification types (error reporting, variable
+    /// level updates, substitution) is prepared to handle cycles: they recurse until the stack
+    /// overflows. The unification functions thus perform this check before any assignment.
+    pub fn occurs_in_type(&self, var: (VarKindDiscriminant, VarId), uty: &UnifType<'ast>) -> bool {
+        match uty {
+            UnifType::UnifVar { id, .. } => {
+                var == (VarKindDiscriminant::Type, *id)
+                    || self.types[*id]
+                        .value
+                        .as_ref()
+                        .is_some_and(|assigned| self.occurs_in_type(var, assigned))
+            }
+            UnifType::Constant(_) => false,
+            UnifType::Concrete { typ, .. } => match typ {
+                TypeF::Arrow(dom, codom) => {
+                    self.occurs_in_type(var, dom) || self.occurs_in_type(var, codom)
+                }
+                TypeF::Forall { body, .. } => self.occurs_in_type(var, body),
+                TypeF::Dict { type_fields, .. } => self.occurs_in_type(var, type_fields),
+                TypeF::Array(elt) => self.occurs_in_type(var, elt),
+                TypeF::Record(urrows) => self.occurs_in_rrows(var, urrows),
+                TypeF::Enum(uerows) => self.occurs_in_erows(var, uerows),
+                TypeF::Dyn
+                | TypeF::Number
+                | TypeF::Bool
+                | TypeF::String
+                | TypeF::Symbol
+                | TypeF::ForeignId
+                | TypeF::Contract(_)
+                | TypeF::Var(_)
+                | TypeF::Wildcard(_) => false,
+            },
+        }
+    }
+
+    /// Same as [Self::occurs_in_type], for record rows.
+    pub fn occurs_in_rrows(
+        &self,
+        var: (VarKindDiscriminant, VarId),
+        urrows: &UnifRecordRows<'ast>,
+    ) -> bool {
+        match urrows {
+            UnifRecordRows::UnifVar { id, .. } => {
+                var == (VarKindDiscriminant::RecordRows, *id)
+                    || self.rrows[*id]
+                        .value
+                        .as_ref()
+                        .is_some_and(|assigned| self.occurs_in_rrows(var, assigned))
+            }
+            UnifRecordRows::Constant(_) => false,
+            UnifRecordRows::Concrete { rrows, .. } => match rrows {
+                RecordRowsF::Extend { row, tail } => {
+                    self.occurs_in_type(var, &row.typ) || self.occurs_in_rrows(var, tail)
+                }
+                RecordRowsF::Empty | RecordRowsF::TailVar(_) | RecordRowsF::TailDyn => false,
+            },
+        }
+    }
+
+    /// Same as [Self::occurs_in_type], for enum rows.
+    pub fn occurs_in_erows(
+        &self,
+        var: (VarKindDiscriminant, VarId),
+        uerows: &UnifEnumRows<'ast>,
+    ) -> bool {
+        match uerows {
+            UnifEnumRows::UnifVar { id, .. } => {
+                var == (VarKindDiscriminant::EnumRows, *id)
+                    || self.erows[*id]
+                        .value
+                        .as_ref()
+                        .is_some_and(|assigned| self.occurs_in_erows(var, assigned))
+            }
+            UnifEnumRows::Constant(_) => false,
+            UnifEnumRows::Concrete { erows, .. } => match erows {
+                EnumRowsF::Extend { row, tail } => {
+                    row.typ
+                        .as_ref()
+                        .is_some_and(|typ| self.occurs_in_type(var, typ))
+                        || self.occurs_in_erows(var, tail)
+                }
+                EnumRowsF::Empty | EnumRowsF::TailVar(_) => false,
+            },
+        }
+    }
+
     /// Assign a type to a type unification variable.
     ///
     /// This method updates variables level, at least lazily, by pushing them to a stack of pending
@@ -1326,7 +1416,20 @@ impl<'ast> Unify<'ast> for UnifType<'ast> {
                     inferred: UnifType::concrete(ty2),
                 })),
             },
-            (UnifType::UnifVar { id, .. }, uty) | (uty, UnifType::UnifVar { id, .. }) => {
+            (UnifType::UnifVar { id, init_level }, uty)
+            | (uty, UnifType::UnifVar { id, init_level }) => {
+                // Occurs check: refuse to build an infinite type such as `a = a -> b`.
+                if matches!(uty, UnifType::Concrete { .. })
+                    && state
+                        .table
+                        .occurs_in_type((VarKindDiscriminant::Type, id), &uty)
+                {
+                    return Err(Box::new(UnifErrorKind::TypeMismatch {
+                        expected: UnifType::UnifVar { id, init_level },
+                        inferred: uty,
+                    }));
+                }
+
                 // [^check-unif-var-level]: If we are unifying a variable with a rigid type
                 // variable, force potential unification variable level updates and check that the
                 // level of the unification variable is greater or equals to the constant: that is,
@@ -1449,8 +1552,29 @@ impl<'ast> Unify<'ast> for UnifEnumRows<'ast> {
                     tail.unify(t2_without_row, state, ctxt)
                 }
             },
-            (UnifEnumRows::UnifVar { id, init_level: _ }, uerows)
-            | (uerows, UnifEnumRows::UnifVar { id, init_level: _ }) => {
+            (UnifEnumRows::UnifVar { id, init_level }, uerows)
+            | (uerows, UnifEnumRows::UnifVar { id, init_level }) => {
+                // Occurs check, see [UnifTable::occurs_in_type].
+                if let UnifEnumRows::Concrete {
+                    erows: EnumRowsF::Extend { row, .. },
+                    ..
+                } = &uerows
+                    && state
+                        .table
+                        .occurs_in_erows((VarKindDiscriminant::EnumRows, id), &uerows)
+                {
+                    return Err(Box::new(RowUnifErrorKind::EnumRowMismatch {
+                        id: row.id,
+                        cause: Some(Box::new(UnifErrorKind::TypeMismatch {
+                            expected: UnifType::concrete(TypeF::Enum(UnifEnumRows::UnifVar {
+                                id,
+                                init_level,
+                            })),
+                            inferred: UnifType::concrete(TypeF::Enum(uerows.clone())),
+                        })),
+                    }));
+                }
+
                 // see [^check-unif-var-level]
                 if let UnifEnumRows::Constant(cst_id) = uerows {
                     let constant_level = state.table.get_erows_level(cst_id);
@@ -1581,8 +1705,29 @@ impl<'ast> Unify<'ast> for UnifRecordRows<'ast> {
                     tail.unify(urrows2_without_ty2, state, ctxt)
                 }
             },
-            (UnifRecordRows::UnifVar { id, init_level: _ }, urrows)
-            | (urrows, UnifRecordRows::UnifVar { id, init_level: _ }) => {
+            (UnifRecordRows::UnifVar { id, init_level }, urrows)
+            | (urrows, UnifRecordRows::UnifVar { id, init_level }) => {
+                // Occurs check, see [UnifTable::occurs_in_type].
+                if let UnifRecordRows::Concrete {
+                    rrows: RecordRowsF::Extend { row, .. },
+                    ..
+                } = &urrows
+                    && state
+                        .table
+                        .occurs_in_rrows((VarKindDiscriminant::RecordRows, id), &urrows)
+                {
+                    return Err(Box::new(RowUnifErrorKind::RecordRowMismatch {
+                        id: row.id,
+                        cause: Box::new(UnifErrorKind::TypeMismatch {
+                            expected: UnifType::concrete(TypeF::Record(UnifRecordRows::UnifVar {
+                                id,
+                                init_level,
+                            })),
+                            inferred: UnifType::concrete(TypeF::Record(urrows.clone())),
+                        }),
+                    }));
+                }
+
                 // see [^check-unif-var-level]
                 if let UnifRecordRows::Constant(cst_id) = urrows {
                     let constant_level = state.table.get_rrows_level(cst_id);
@@ -1756,6 +1901,15 @@ impl<'ast> RemoveRow<'ast> for UnifRecordRows<'ast> {
                 tail_extended
                     .propagate_constrs(state.constr, var_id)
                     .map_err(|_| RemoveRowError::Conflict)?;
+
+                // Occurs check, see [UnifTable::occurs_in_type].
+                if state
+                    .table
+                    .occurs_in_rrows((VarKindDiscriminant::RecordRows, var_id), &tail_extended)
+                {
+                    return Err(RemoveRowError::Conflict);
+                }
+
                 state.table.assign_rrows(var_id, tail_extended);
 
                 Ok((RemoveRowResult::Extended, tail_var))
@@ -1836,6 +1990,15 @@ impl<'ast> RemoveRow<'ast> for UnifEnumRows<'ast> {
                 tail_extended
                     .propagate_constrs(state.constr, var_id)
                     .map_err(|_| RemoveRowError::Conflict)?;
+
+                // Occurs check, see [UnifTable::occurs_in_type].
+                if state
+                    .table
+                    .occurs_in_erows((VarKindDiscriminant::EnumRows, var_id), &tail_extended)
+                {
+                    return Err(RemoveRowError::Conflict);
+                }
+
                 state.table.assign_erows(var_id, tail_extended);
 
                 Ok((RemoveRowResult::Extended, tail_var))
